@@ -8,6 +8,8 @@ from .. import fields, paths
 from ..core import FUNC, call_attr, calls_in, const, dotted, is_const, kwarg, norm, slice_parts, text, walk_local
 
 EXPLANATION = [
+    'C10.opcode-lookup: ATT_PDU.from_bytes looks the PDU class up by the unmodified opcode only.',
+    'C10.eatt-close-scope: the EVENT_CLOSE hook installed by Server.register_eatt calls on_disconnection(channel) - the closed bearer itself.',
     "C10.bearer-dispatch: both consumers of an ATT bearer (Device.on_gatt_pdu, the sink installed by Client.connect_eatt) dispatch on the opcode parity and hand client->server PDUs to the server's on_gatt_pdu_bytes.",
     'C10.bearer-kind: att.is_enhanced_bearer returns exactly isinstance(bearer, EnhancedBearer) (the narrowing all bearer branches rely on).',
     "C10.total-mappers: every display mapper of an ATT / HCI field is total on the field's values (no indexing with the value, no fixed-format unpack): str() of a PDU, evaluated for the debug log before dispatch, cannot raise.",
@@ -737,7 +739,42 @@ def bearer_dispatch(ctx):
         R.check(bool(to_client) and bool(to_server) and bool(parity), rule, q, 'dispatches on the opcode parity: requests to the server, responses to the client', f'{q.rsplit(".", 1)[-1]} hands every PDU of the bearer to the client: a request the peer sends on it is logged as an unexpected response and never answered', p.loc(fn))
 
 
+def eatt_close_scope(ctx):
+    """Closing an enhanced bearer forgets that bearer\'s state: the close hook installed by Server.register_eatt calls
+    on_disconnection with the channel itself, not with the connection under it (which is the fixed bearer - wiping its
+    pending confirmation lets a second indication out before the first is confirmed)."""
+    R, p = ctx.r, ctx.p
+    rule = 'C10.eatt-close-scope'
+    fn = p.find(f'{SRV}.register_eatt')
+    if fn is None:
+        R.bad(rule, f'{SRV}.register_eatt', 'anchor missing')
+        return
+    hooks = [c for c in ast.walk(fn) if isinstance(c, ast.Call) and dotted(c.func) == 'self.on_disconnection']
+    R.check(len(hooks) >= 1, rule, f'{SRV}.register_eatt | close hook', f'{len(hooks)} hook(s)', 'no close hook calling on_disconnection (anchor)', p.loc(fn))
+    for c in hooks:
+        a = norm(c.args[0]) if c.args else ''
+        R.check(a == 'channel', rule, f'{SRV}.register_eatt | on_disconnection({a})', 'the closed channel', f'the close hook of an enhanced bearer cleans up `{a}`: the state of another bearer (the fixed one) is wiped while the link is up - its unconfirmed indication is forgotten and a second one is sent', p.loc(c))
+
+
+def opcode_lookup(ctx):
+    """ATT_PDU.from_bytes finds the PDU class by the whole opcode octet: an opcode without a class stays a generic PDU
+    (ignored if it is not a request) - it is not mapped onto the class of its 6-bit method, which would turn an unknown
+    command into a request that gets answered."""
+    R, p = ctx.r, ctx.p
+    rule = 'C10.opcode-lookup'
+    fn = p.find('bumble.att.ATT_PDU.from_bytes')
+    if fn is None:
+        R.bad(rule, 'bumble.att.ATT_PDU.from_bytes', 'anchor missing')
+        return
+    looks = [c.args[0] for c in calls_in(fn) if call_attr(c) == 'get' and (dotted(c.func.value) or '').endswith('pdu_classes') and c.args]
+    looks += [s_.slice for s_ in ast.walk(fn) if isinstance(s_, ast.Subscript) and (dotted(s_.value) or '').endswith('pdu_classes')]
+    bad = [x for x in looks if not isinstance(x, ast.Name)]
+    R.check(len(looks) >= 1 and not bad, rule, 'bumble.att.ATT_PDU.from_bytes', f'{len(looks)} lookup(s) by the opcode itself', f'the class is also looked up under `{norm(bad[0]) if bad else ""}`: an undefined opcode with the command / signature bit set is parsed as the request of the same method and answered (a command must get no reply; an Exchange MTU method even changes the MTU)', p.loc(bad[0]) if bad else p.loc(fn))
+
+
 RULES = [
+    ('C10.opcode-lookup', opcode_lookup),
+    ('C10.eatt-close-scope', eatt_close_scope),
     ('C10.bearer-dispatch', bearer_dispatch),
     ('C10.bearer-kind', bearer_kind),
     ('C10.total-mappers', total_mappers_rule),
